@@ -723,6 +723,13 @@ class Folder:
                 return [b_ for b_, m_ in zip(base, i) if m_]
             if isinstance(base, list) and isinstance(i, list) and not isinstance(i, BoolList) and all(isinstance(t, int) and not isinstance(t, bool) and -len(base) <= t < len(base) for t in i):
                 return [base[t] for t in i]
+            if isinstance(base, list) and not isinstance(base, PySeq) and isinstance(i, list) and not isinstance(i, (BoolList, PySeq)) and i and all(isinstance(t, list) for t in i):
+                # a tensor of positions of any rank: the result has the index tensor's shape (times the remaining axes)
+                flat_ = _flat(i)
+                if all(isinstance(t, int) and not isinstance(t, bool) and -len(base) <= t < len(base) for t in flat_):
+                    import copy as _cp
+
+                    return _ew(lambda t: _cp.deepcopy(base[t]), i)
             raise Unfoldable("subscript")
         if isinstance(node, ast.Compare) and len(node.ops) == 1 and isinstance(node.ops[0], (ast.In, ast.NotIn)):
             a, b = self.fold(node.left), self.fold(node.comparators[0])
@@ -951,6 +958,9 @@ class Folder:
 
                         return _build_from(si_, _g)
                 raise Unfoldable("gather arguments")
+            if m in ("eq", "ne", "gt", "lt", "ge", "le") and len(node.args) == 1 and not node.keywords:
+                op_ = {"eq": ast.Eq, "ne": ast.NotEq, "gt": ast.Gt, "lt": ast.Lt, "ge": ast.GtE, "le": ast.LtE}[m]()
+                return self.fold(ast.Compare(left=node.func.value, ops=[op_], comparators=[node.args[0]]))
             if m == "masked_fill" and len(node.args) == 2 and not node.keywords:
                 v = self.fold(node.func.value)
                 mk_, val_ = self.fold(node.args[0]), self.fold(node.args[1])
@@ -1478,6 +1488,9 @@ class Folder:
                     return float(node.args[0].value)
                 except ValueError as exc:
                     raise Unfoldable(str(exc))
+            if short in ("eq", "ne", "gt", "lt", "ge", "le") and nm.startswith("torch.") and len(node.args) == 2 and not node.keywords:
+                op_ = {"eq": ast.Eq, "ne": ast.NotEq, "gt": ast.Gt, "lt": ast.Lt, "ge": ast.GtE, "le": ast.LtE}[short]()
+                return self.fold(ast.Compare(left=node.args[0], ops=[op_], comparators=[node.args[1]]))
             if short == "view_as_real" and nm.startswith("torch.") and len(node.args) == 1 and not node.keywords:
                 v_ = self.fold(node.args[0])
 
@@ -1513,7 +1526,15 @@ class Folder:
                 return _ew(lambda x, y: complex(x, y), self.fold(node.args[0]), self.fold(node.args[1]))
             if short in ("zeros", "ones") and nm.startswith("torch."):
                 if self.materialise and node.args:
-                    dims = [self.fold(a) for a in node.args]
+                    dims = []
+                    for a_ in node.args:
+                        if isinstance(a_, ast.Starred):
+                            t_ = self.fold(a_.value)
+                            if not isinstance(t_, list):
+                                raise Unfoldable("starred size")
+                            dims.extend(t_)
+                        else:
+                            dims.append(self.fold(a_))
                     if len(dims) == 1 and isinstance(dims[0], list):
                         dims = dims[0]
                     if all(isinstance(d, int) and not isinstance(d, bool) and 0 <= d <= 4096 for d in dims):
